@@ -1,6 +1,7 @@
 import Props.C07
 import Lemmas.Parse
 import Lemmas.Demo
+import Lemmas.GivenLast
 /-!
 # C01 — scalar option values reach the program exactly as written
 -/
@@ -241,5 +242,85 @@ theorem finish_optional (s : PState) (o i : Nat) (he : s.err = none) (hc : s.ctx
 example : ((parseArgs Demo.ext .normal Demo.prog [b "-v", b "--verbose", b "-v"]).P.opt 1).value = .b true := by decide
 example : ((parseArgs Demo.ext .normal Demo.prog [b "--opt", b "--verbose"]).P.opt 3).value = .s (b "d") ∧
           ((parseArgs Demo.ext .normal Demo.prog [b "--opt", b "--verbose"]).P.opt 3).called = true := by decide
+
+/-! ## end to end: the last occurrence decides -/
+
+/-- **The last occurrence decides (attached form).**  `argv = pre ++ ["--name=v"] ++ post`, the parser is
+at a head position after `pre`, `name` resolves (exactly, by alias or unique abbreviation) to the scalar
+option `oid`, `v` is accepted by the typed conversion giving the record `o'`, and nothing in `post`
+mentions the option: then after the whole parse the option record is exactly `o'` - the value read from
+`v`, `Called`, `CalledAs = key` - whatever `pre` did to the option before and whatever else `post`
+contains (other options, commands, unknown options, `--`, values). -/
+theorem attached_value_is_final (P : Prog) (pre post : List Str) (name v key : Str) (oid : Nat) (o' : Opt)
+    (he : (run ext mode P pre).err = none) (hc : (run ext mode P pre).ctx = .idle)
+    (hn : name ≠ []) (hne : ∀ c ∈ name, c ≠ chEq) (hv : v ≠ [])
+    (hr : resolve (P.node (run ext mode P pre).cur) name = [key])
+    (hl : lookup key (P.node (run ext mode P pre).cur).opts = some oid)
+    (hoid : oid < P.opts.length)
+    (hs : save ext (P.node 0).mapKeysToLower (matched (run ext mode P pre) oid key) [v] = .ok o')
+    (hmax : o'.max ≤ 1)
+    (hpost : ¬ Mentioned mode P post oid) :
+    (parseArgs ext mode P (pre ++ (chDash :: chDash :: (name ++ chEq :: v)) :: post)).P.opt oid = o' := by
+  have hsh := run_shape ext mode P pre
+  unfold parseArgs
+  rw [run_append]
+  simp only [List.foldl]
+  generalize run ext mode P pre = s at he hc hr hl hs hsh
+  rw [← hsh.1] at hr hl hs
+  have h1 := (step_long_attached ext mode s name v key oid he hc hn hne hv hr hl
+    (fun o2 h2 => by rw [hs] at h2; cases h2; exact hmax)).1 o' hs
+  rw [h1]
+  have hnm : ¬ Mentioned mode (s.P.setOpt oid o') post oid := by
+    rw [mentioned_congr mode (P' := s.P.setOpt oid o') (P := P) (fun n => hsh.1 n)]
+    exact hpost
+  have := later_unmentioned_keeps ext mode
+    { headState s (chDash :: chDash :: (name ++ chEq :: v)) with P := s.P.setOpt oid o', pending := [] }
+    post oid hnm rfl (fun o i h => by simp [headState, hc] at h)
+  rw [this]
+  exact opt_setOpt_same s.P oid o' (by rw [hsh.2]; exact hoid)
+
+/-- **The last occurrence decides (detached form).**  The same for `--name v` with a separate value
+token that does not look like an option, for the kinds that take exactly one mandatory argument. -/
+theorem detached_value_is_final (P : Prog) (pre post : List Str) (name v key : Str) (oid : Nat) (o' : Opt)
+    (he : (run ext mode P pre).err = none) (hc : (run ext mode P pre).ctx = .idle)
+    (hn : name ≠ []) (hne : ∀ c ∈ name, c ≠ chEq) (hlook : looksLikeOption v mode = false)
+    (hr : resolve (P.node (run ext mode P pre).cur) name = [key])
+    (hl : lookup key (P.node (run ext mode P pre).cur).opts = some oid)
+    (hoid : oid < P.opts.length)
+    (hkind : ((run ext mode P pre).P.opt oid).kind ≠ .bool) (hkind2 : ((run ext mode P pre).P.opt oid).kind ≠ .incr)
+    (hmin : ((run ext mode P pre).P.opt oid).min = 1) (hmaxv : ((run ext mode P pre).P.opt oid).max = 1)
+    (hs : save ext (P.node 0).mapKeysToLower (matched (run ext mode P pre) oid key) [v] = .ok o')
+    (hmax : o'.max ≤ 1)
+    (hpost : ¬ Mentioned mode P post oid) :
+    (parseArgs ext mode P (pre ++ (chDash :: chDash :: name) :: v :: post)).P.opt oid = o' := by
+  have hsh := run_shape ext mode P pre
+  unfold parseArgs
+  rw [run_append]
+  simp only [List.foldl]
+  generalize run ext mode P pre = s at he hc hr hl hs hsh hkind hkind2 hmin hmaxv
+  rw [← hsh.1] at hr hl hs
+  have hoid' : oid < s.P.opts.length := by rw [hsh.2]; exact hoid
+  have h1 := (step_long_detached ext mode s name v key oid he hc hn hne hlook hr hl hoid' hkind hkind2 hmin hmaxv
+    (fun o2 h2 => by rw [hs] at h2; cases h2; exact hmax)).1 o' hs
+  rw [h1]
+  have hnm : ¬ Mentioned mode ((s.P.setOpt oid (matched s oid key)).setOpt oid o') post oid := by
+    rw [mentioned_congr mode (P' := (s.P.setOpt oid (matched s oid key)).setOpt oid o') (P := P) (fun n => hsh.1 n)]
+    exact hpost
+  have := later_unmentioned_keeps ext mode
+    { headState s (chDash :: chDash :: name) with
+        P := (s.P.setOpt oid (matched s oid key)).setOpt oid o', lastTok := v, pending := [] }
+    post oid hnm rfl (fun o i h => by simp [headState, hc] at h)
+  rw [this]
+  exact opt_setOpt_same _ oid o' (by simpa [Prog.setOpt] using hoid')
+
+/-! Non-vacuity on the demo program: `--name=a -v --name=b cmd --force x`: the later occurrence of
+`name` (option 0) is followed by tokens that do not mention it; the theorem's conclusion, computed. -/
+example :
+    ((parseArgs Demo.ext .normal Demo.prog
+      [b "--name=a", b "-v", b "--name=b", b "cmd", b "--force", b "x"]).P.opt 0).value = .s (b "b") ∧
+    (run Demo.ext .normal Demo.prog [b "--name=a", b "-v"]).ctx = .idle ∧
+    (run Demo.ext .normal Demo.prog [b "--name=a", b "-v"]).err = none := by
+  decide
+
 
 end GoModel
